@@ -44,7 +44,7 @@ theorem code_clearLoop (F : Fn Rat) (e : EngineD Rat) (fz0 : Nat → List (Act R
       simp only [List.zipIdx_cons, List.map_cons, Engine_process.loop1]
       obtain ⟨σ', g, g1, g2, g3⟩ := code_clearLoop F e fz0 l (k + 1)
         { σ with variable_ := (k, v), fuzzy := σ.fuzzy.set k [] } (pre ++ [[]]) post
-        (by simp [h, List.set_append, hk]) (by simp [hk]) (by simpa using hp)
+        (by simp [h, hk]) (by simp [hk]) (by simpa using hp)
       exact ⟨σ', g, by simpa using g1, g2, g3⟩
 
 /-- second loop: the enabled rule blocks are activated in order on the fuzzy outputs accumulated so far -/
